@@ -375,6 +375,9 @@ def _parent(E, ci, p):
 
 
 def pathbuf_push(E, pb, comp):
+    c = deref(comp)
+    if isinstance(c, Agg) and c.ty == 'Component':     # PathBuf: FromIterator<Component> / push(Component)
+        comp = comp_os_str(c)
     comp = as_slice(comp)
     if len(comp) and E.branch(i_eq(comp.buf[comp.a], U8(47))):
         pb.buf[:] = list(comp.items())       # absolute path replaces
